@@ -15,7 +15,10 @@ Qed.
 
 (* Both sides are by now the same term, syntactically (up to bound names).  Checking that first makes a
    changed translation fail at once instead of sending the conversion test into a long search. *)
-Ltac same := lazymatch goal with |- ?a = ?b => constr_eq a b end; reflexivity.
+(* The generated functions mention the constants regenerated from the source (Gen/ScoreConsts.v), the model those of
+   Model/ScoreConstsHand.v: both are unfolded to their numerals first, so a changed number shows up as two different literals. *)
+Ltac consts := cbv delta [BE.Gen.ScoreConsts.k_minor BE.Model.ScoreConstsHand.k_minor BE.Gen.ScoreConsts.k_major BE.Model.ScoreConstsHand.k_major BE.Gen.ScoreConsts.k_nt BE.Model.ScoreConstsHand.k_nt BE.Gen.ScoreConsts.k_make BE.Model.ScoreConstsHand.k_make BE.Gen.ScoreConsts.k_make_x BE.Model.ScoreConstsHand.k_make_x BE.Gen.ScoreConsts.k_make_xx BE.Model.ScoreConstsHand.k_make_xx BE.Gen.ScoreConsts.k_game BE.Model.ScoreConstsHand.k_game BE.Gen.ScoreConsts.k_game_vul BE.Model.ScoreConstsHand.k_game_vul BE.Gen.ScoreConsts.k_small_slam BE.Model.ScoreConstsHand.k_small_slam BE.Gen.ScoreConsts.k_small_slam_vul BE.Model.ScoreConstsHand.k_small_slam_vul BE.Gen.ScoreConsts.k_grand_slam BE.Model.ScoreConstsHand.k_grand_slam BE.Gen.ScoreConsts.k_grand_slam_vul BE.Model.ScoreConstsHand.k_grand_slam_vul BE.Gen.ScoreConsts.k_overtrick_x BE.Model.ScoreConstsHand.k_overtrick_x BE.Gen.ScoreConsts.k_overtrick_x_vul BE.Model.ScoreConstsHand.k_overtrick_x_vul BE.Gen.ScoreConsts.k_overtrick_xx BE.Model.ScoreConstsHand.k_overtrick_xx BE.Gen.ScoreConsts.k_overtrick_xx_vul BE.Model.ScoreConstsHand.k_overtrick_xx_vul BE.Gen.ScoreConsts.k_down BE.Model.ScoreConstsHand.k_down BE.Gen.ScoreConsts.k_down_vul BE.Model.ScoreConstsHand.k_down_vul BE.Gen.ScoreConsts.k_down_x BE.Model.ScoreConstsHand.k_down_x BE.Gen.ScoreConsts.k_down_x_vul BE.Model.ScoreConstsHand.k_down_x_vul BE.Gen.ScoreConsts.k_down_xx BE.Model.ScoreConstsHand.k_down_xx BE.Gen.ScoreConsts.k_down_xx_vul BE.Model.ScoreConstsHand.k_down_xx_vul BE.Gen.ScoreConsts.k_imps_list BE.Model.ScoreConstsHand.k_imps_list].
+Ltac same := consts; lazymatch goal with |- ?a = ?b => constr_eq a b end; reflexivity.
 
 (* point_difference_to_imps, score_to_imp: the same term up to let-expansion *)
 Theorem g_imps_eq : forall d, g_point_difference_to_imps d = point_difference_to_imps d.
